@@ -255,6 +255,8 @@ pub fn c05(ctx: &mut Ctx) -> (u64, String) {
     ctx.evaluations += pairs;
     nontrivial += 2048;
     ctx.part("fault-sequences:any frame then a valid frame on one decoder (bit-serial)", json!({"first_frames": 2048, "second_frames": 256, "pairs": pairs}));
+    // (5) and after clear() from every partial prefix every frame is judged by the same rule
+    report_clear_sweep(ctx);
     ctx.sample(json!({"word": "0x402", "bits": "start=0 data=0x01 parity=0 stop=1", "reference": "Ok(0x01)"}));
     ctx.sample(json!({"word": "0x403", "reference": "Err(BadStartBit) (priority over the now-wrong parity)"}));
     ctx.sample(json!({"word": "0x002", "reference": "Err(BadStopBit)"}));
@@ -379,6 +381,159 @@ pub fn pump_frame_ops(w: u16, rep: usize, upto_bit: usize, with_clear: bool) -> 
         }
     }
     ops
+}
+
+/// hook-free: clear() from every partial prefix (2047), then every one of the 2048 frames bit by bit.
+/// Returns (bit positions checked, failures as (prefix length, prefix bits, frame, expected)).
+pub fn clear_sweep() -> (u64, Vec<(usize, u16, u16, String)>) {
+    let results = par_chunks(11, |len| {
+        let mut n = 0u64;
+        let mut bads = vec![];
+        for prefix in 0..(1u16 << len) {
+            let prep = catch_unwind(AssertUnwindSafe(|| {
+                let mut d = Ps2Decoder::new();
+                for i in 0..len {
+                    let _ = d.add_bit((prefix >> i) & 1 != 0);
+                }
+                d.clear();
+                d
+            }));
+            let Ok(d) = prep else {
+                if bads.len() < 16 {
+                    bads.push((len, prefix, 0u16, "no panic".to_string()));
+                }
+                continue;
+            };
+            for w in 0..2048u16 {
+                let mut d2 = d.clone();
+                let want = r_frame(w).map(Some);
+                let res = catch_unwind(AssertUnwindSafe(|| {
+                    let mut last = Ok(None);
+                    for k in 0..11 {
+                        last = d2.add_bit((w >> k) & 1 != 0);
+                        if k < 10 && last != Ok(None) {
+                            return (last, true, k + 1);
+                        }
+                    }
+                    (last, false, 11)
+                }));
+                match res {
+                    Ok((last, early, steps)) => {
+                        n += steps as u64;
+                        if (early || last != want) && bads.len() < 16 {
+                            bads.push((len, prefix, w, fmt_optbyte(&want)));
+                        }
+                    }
+                    Err(_) => {
+                        n += 1;
+                        if bads.len() < 16 {
+                            bads.push((len, prefix, w, fmt_optbyte(&want)));
+                        }
+                    }
+                }
+            }
+        }
+        (n, bads)
+    });
+    let mut total = 0u64;
+    let mut out = vec![];
+    for (n, b) in results {
+        total += n;
+        out.extend(b);
+    }
+    (total, out)
+}
+
+pub fn report_clear_sweep(ctx: &mut Ctx) {
+    let (total, bads) = clear_sweep();
+    for (len, prefix, w, want) in bads {
+        let mut ops: Vec<Op> = (0..len).map(|i| Op::Bit((prefix >> i) & 1 != 0)).collect();
+        ops.push(Op::Clear);
+        ops.extend(word_ops_bits(w));
+        // trim to the failing position
+        let t = crate::replay::run_part("ps2", &ops);
+        let upto = t.iter().enumerate().skip(len + 1).find(|(i, s)| (*i < len + 11 && *s != "Ok(None)") || *i == len + 11).map(|(i, _)| i + 1).unwrap_or(ops.len());
+        ops.truncate(upto);
+        let obs = t[upto - 1].clone();
+        ctx.violation(
+            &format!("ps2/after-clear/{}bits:{:0w$b}/frame:0x{:03X}", len, prefix, w, w = len),
+            &format!("{} bits of a partial frame, then clear(), then frame 0x{:03X} bit by bit: must end in {} but gives {}", len, w, want, obs),
+            Replay::one("ps2", ops, &want, Some(obs)),
+        );
+    }
+    ctx.evaluations += total;
+    ctx.traces_validated += total;
+    ctx.part("sweep:clear-from-every-prefix", json!({"engine": "B (hook-free)", "partial_prefixes": 2047, "frames_after_clear": 2048, "bit_positions_checked": total}));
+}
+
+/// pumped frame pairs: (w1 w2)^reps on one decoder for every w1 (2048) and every w2 of `seconds`
+pub fn pump_frame_pairs(reps: usize, seconds: &[u16]) -> (u64, Vec<(u16, u16, usize, usize, String, String)>) {
+    let results = par_chunks(2048, |w1| {
+        let w1 = w1 as u16;
+        let mut n = 0u64;
+        let mut bads = vec![];
+        for &w2 in seconds {
+            let mut d = Ps2Decoder::new();
+            'outer: for rep in 0..reps {
+                for (fi, w) in [w1, w2].iter().enumerate() {
+                    for i in 0..11 {
+                        let b = (w >> i) & 1 != 0;
+                        let r = catch_unwind(AssertUnwindSafe(|| d.add_bit(b)));
+                        n += 1;
+                        let want = if i < 10 { Ok(None) } else { r_frame(*w).map(Some) };
+                        if !matches!(&r, Ok(x) if *x == want) {
+                            let obs = match &r {
+                                Ok(x) => fmt_optbyte(x),
+                                Err(_) => "PANIC".to_string(),
+                            };
+                            if bads.len() < 3 {
+                                bads.push((w1, w2, rep, fi * 11 + i, fmt_optbyte(&want), obs));
+                            }
+                            break 'outer;
+                        }
+                    }
+                }
+            }
+        }
+        (n, bads)
+    });
+    let mut total = 0;
+    let mut out = vec![];
+    for (n, b) in results {
+        total += n;
+        out.extend(b);
+    }
+    (total, out)
+}
+
+pub fn pump_pair_ops(w1: u16, w2: u16, rep: usize, upto: usize) -> Vec<Op> {
+    let mut ops = vec![];
+    for r in 0..=rep {
+        let lim = if r == rep { upto + 1 } else { 22 };
+        for j in 0..lim {
+            let w = if j < 11 { w1 } else { w2 };
+            ops.push(Op::Bit((w >> (j % 11)) & 1 != 0));
+        }
+    }
+    ops
+}
+
+/// second frames for the pair pump: quick = 24 representatives (valid, each error class, extremes); thorough = all 2048
+pub fn pair_seconds(all: bool) -> Vec<u16> {
+    if all {
+        return (0..2048u16).collect();
+    }
+    let mut v = vec![0x000, 0x7FF, 0x001, 0x400, 0x3FF, 0x555, 0x2AA];
+    for b in [0x00u8, 0x01, 0x1C, 0x12, 0xE0, 0xF0, 0xAA, 0xFF] {
+        let f = encode(b);
+        v.push(f);
+        v.push(f ^ (1 << 9)); // parity error
+    }
+    v.push(encode(0x1C) | 1); // bad start
+    v.push(encode(0x1C) & !(1 << 10)); // bad stop
+    v.sort();
+    v.dedup();
+    v
 }
 
 // ---- C06 --------------------------------------------------------------------------------------
@@ -571,77 +726,8 @@ pub fn c06(ctx: &mut Ctx) -> (u64, String) {
     ctx.part("tree:bit-streams", json!({"engine": "B stream tree (hook-free)", "frames_per_stream": frames, "bits_per_stream": total_bits, "bit_positions_checked": total, "streams": (1u64 << total_bits), "chunks_rerun_with_panic_guards": slow}));
 
     // (C) hook-free: clear() from every partial prefix, then every one of the 2048 frames
-    let results = par_chunks(11, |len| {
-        let mut n = 0u64;
-        let mut bads = vec![];
-        for prefix in 0..(1u16 << len) {
-            let prep = catch_unwind(AssertUnwindSafe(|| {
-                let mut d = Ps2Decoder::new();
-                for i in 0..len {
-                    let _ = d.add_bit((prefix >> i) & 1 != 0);
-                }
-                d.clear();
-                d
-            }));
-            let Ok(d) = prep else {
-                if bads.len() < 16 {
-                    bads.push((len, prefix, 0u16, "no panic".to_string()));
-                }
-                continue;
-            };
-            for w in 0..2048u16 {
-                let mut d2 = d.clone();
-                let want = r_frame(w).map(Some);
-                let res = catch_unwind(AssertUnwindSafe(|| {
-                    let mut last = Ok(None);
-                    for k in 0..11 {
-                        last = d2.add_bit((w >> k) & 1 != 0);
-                        if k < 10 && last != Ok(None) {
-                            return (last, true, k + 1);
-                        }
-                    }
-                    (last, false, 11)
-                }));
-                match res {
-                    Ok((last, early, steps)) => {
-                        n += steps as u64;
-                        if (early || last != want) && bads.len() < 16 {
-                            bads.push((len, prefix, w, fmt_optbyte(&want)));
-                        }
-                    }
-                    Err(_) => {
-                        n += 1;
-                        if bads.len() < 16 {
-                            bads.push((len, prefix, w, fmt_optbyte(&want)));
-                        }
-                    }
-                }
-            }
-        }
-        (n, bads)
-    });
-    let mut total = 0u64;
-    for (n, bads) in results {
-        total += n;
-        for (len, prefix, w, want) in bads {
-            let mut ops: Vec<Op> = (0..len).map(|i| Op::Bit((prefix >> i) & 1 != 0)).collect();
-            ops.push(Op::Clear);
-            ops.extend(word_ops_bits(w));
-            // trim to the failing position
-            let t = crate::replay::run_part("ps2", &ops);
-            let upto = t.iter().enumerate().skip(len + 1).find(|(i, s)| (*i < len + 11 && *s != "Ok(None)") || *i == len + 11).map(|(i, _)| i + 1).unwrap_or(ops.len());
-            ops.truncate(upto);
-            let obs = t[upto - 1].clone();
-            ctx.violation(
-                &format!("ps2/after-clear/{}bits:{:0w$b}/frame:0x{:03X}", len, prefix, w, w = len),
-                &format!("{} bits of a partial frame, then clear(), then frame 0x{:03X} bit by bit: must end in {} but gives {}", len, w, want, obs),
-                Replay::one("ps2", ops, &want, Some(obs)),
-            );
-        }
-    }
-    ctx.evaluations += total;
-    ctx.traces_validated += total;
-    ctx.part("sweep:clear-from-every-prefix", json!({"engine": "B (hook-free)", "partial_prefixes": 2047, "frames_after_clear": 2048, "bit_positions_checked": total}));
+    report_clear_sweep(ctx);
+
     // (D) pumped frames: each of the 2048 frames 300 times on one decoder, without and with partial-frame+clear between
     for with_clear in [false, true] {
         let (n, bads) = pump_frames(300, with_clear);
@@ -657,6 +743,22 @@ pub fn c06(ctx: &mut Ctx) -> (u64, String) {
         ctx.evaluations += n;
         ctx.traces_validated += n;
         ctx.part(if with_clear { "pump:frames with partial frame + clear between" } else { "pump:frames" }, json!({"engine": "B pumped streams", "frames": 2048, "repetitions": 300, "bit_positions_checked": n, "violations_recorded": nb}));
+    }
+    {
+        let seconds = pair_seconds(ctx.thorough());
+        let reps = 6;
+        let (n, bads) = pump_frame_pairs(reps, &seconds);
+        let nb = bads.len();
+        for (w1, w2, rep, upto, want, got) in bads.into_iter().take(12) {
+            ctx.violation(
+                &format!("ps2/pumped-pair/0x{:03X}-0x{:03X}", w1, w2),
+                &format!("frames 0x{:03X} and 0x{:03X} shifted in alternately: in repetition {} bit {} of the pair must give {} but gives {}", w1, w2, rep + 1, upto + 1, want, got),
+                Replay::one("ps2", pump_pair_ops(w1, w2, rep, upto), &want, Some(got)),
+            );
+        }
+        ctx.evaluations += n;
+        ctx.traces_validated += n;
+        ctx.part("pump:frame pairs (w1 w2)^6", json!({"engine": "B pumped streams", "first_frames": 2048, "second_frames": seconds.len(), "repetitions": reps, "bit_positions_checked": n, "violations_recorded": nb}));
     }
     ctx.sample(json!({"bits": "0 10000000 0 1", "reference": "10 x Ok(None), then Ok(Some(0x01))"}));
     ctx.sample(json!({"history": "corrupted frame 0x403 (bad start) then valid frame 0x402", "reference": "Err(BadStartBit) at bit 11, Ok(Some(0x01)) at bit 22"}));
